@@ -525,7 +525,9 @@ func freeRunning(r *ev.Run, i int) *p2prig.Scenario {
 	s.WaitReconnect = true
 	s.Announce = []p2prig.AnnounceSpec{{Blocks: 1, Mode: "inv", Nodes: []int{0, 1}}, {Blocks: 2, Mode: "headers"}, {Blocks: 1, Mode: "conformant", Nodes: []int{0, 3}},
 		// the peer on the losing branch announces its own tip: the service fetches that branch (new headers, all stale)
-		{Blocks: 0, Mode: "inv", Nodes: []int{2}}, {Blocks: 1, Mode: "conformant", Nodes: []int{0, 2}}}
+		{Blocks: 0, Mode: "inv", Nodes: []int{2}}, {Blocks: 1, Mode: "conformant", Nodes: []int{0, 2}},
+		// the honest peer announces, by inv, a block the service already has (twice), then a new one
+		{Blocks: 0, Mode: "inv", Nodes: []int{0}}, {Blocks: 0, Mode: "inv", Nodes: []int{0, 1}}, {Blocks: 1, Mode: "inv", Nodes: []int{0}}}
 	return s
 }
 
@@ -608,7 +610,7 @@ func body(r *ev.Run) {
 			}
 			res, crash := p2prig.RunScenarioChild(r.Scratch, s, time.Duration(200+s.IdleSec)*time.Second)
 			c06.Record(r, s, res, crash, func(sig string) bool {
-				return strings.HasPrefix(sig, "panic") || strings.HasPrefix(sig, "reader-5xx|") || strings.HasPrefix(sig, "ichain|")
+				return strings.HasPrefix(sig, "panic") || strings.HasPrefix(sig, "reader-5xx|") || strings.HasPrefix(sig, "ichain|") || strings.HasPrefix(sig, "hang|")
 			})
 			r.Cases(1)
 			r.Count("free_running_scenarios", 1)
